@@ -653,3 +653,297 @@ Proof.
   - inversion E; subst. destruct (start0 p (S k) s) as (A & B & C). repeat split; auto; intros; exfalso; eapply C; eauto.
   - inversion E; subst. destruct (start0 p (S k) s) as (A & B & C). repeat split; auto; intros; exfalso; eapply C; eauto.
 Qed.
+
+Record frameL (t : nat) (m m' : kmem) : Prop := {
+  fl_state : forall u, u <> t -> fstate m' u = fstate m u \/ fstate m' u = ST_READY;
+  fl_sched : forall u, u <> t -> slot_sched m' u = slot_sched m u;
+  fl_mpmc : forall u, u <> t -> slot_mpmc m' u = slot_mpmc m u;
+  fl_wait : forall u, u <> t -> slot_wait m' u = slot_wait m u;
+  fl_mutex : forall u, u <> t -> slot_mutex m' u = slot_mutex m u
+}.
+
+Lemma frameT_L t m m' : frameT t m m' -> frameL t m m'.
+Proof.
+  intros F. constructor; try apply F.
+  - intros u _. now rewrite (fr_sched _ _ _ F).
+  - intros u _. now rewrite (fr_mpmc _ _ _ F).
+  - intros u _. now rewrite (fr_wait _ _ _ F).
+Qed.
+
+Lemma frameL_refl t m : frameL t m m.
+Proof. constructor; auto. Qed.
+
+Lemma linv0_other m m' c c' t u p :
+  u <> t -> frameL t m m' -> myclaim c' u = myclaim c u -> myrel c' u = myrel c u ->
+  linv0 m c u p -> linv0 m' c' u p.
+Proof.
+  intros Hu F E1 E2 [A B C D E G H]. constructor; auto.
+  - destruct (fl_state _ _ _ F u Hu) as [Q|Q]; rewrite Q; auto. eapply pstate_ready; eauto.
+  - rewrite (fl_sched _ _ _ F u Hu); auto.
+  - rewrite (fl_mpmc _ _ _ F u Hu); auto.
+  - rewrite (fl_wait _ _ _ F u Hu); auto.
+  - intros q. rewrite (fl_mutex _ _ _ F u Hu); auto.
+  - rewrite E1, E2. exact H.
+Qed.
+
+Ltac brk_match :=
+  repeat match goal with
+  | |- context [match ?x with _ => _ end] => destruct x
+  end.
+
+Lemma gc_other m t p c u : u <> t ->
+  myclaim (gc_step m t p c) u = myclaim c u /\ myrel (gc_step m t p c) u = myrel c u.
+Proof.
+  intros Hu. unfold gc_step, set_myclaim. brk_match; cbn; rewrite ?upd_other by auto; auto.
+Qed.
+
+Lemma ret0 m0 c0 t v m' p' (g' : gc) :
+  creturn m0 t c0 v = (m', p') -> (exists kp, cphase_okb c0 kp = true) ->
+  st12 (fstate m0 t) -> slot_sched m0 t = false -> slot_mpmc m0 t = None -> slot_wait m0 t = None ->
+  (forall q, slot_mutex m0 t = Some q -> q = UMUTEX) ->
+  (forall um p k, c0 = CS2 um p k -> 1 <= v -> myclaim g' t = 1 /\ myrel g' t = 0) ->
+  (forall um p k, c0 = CB2 um p k -> myclaim g' t = v /\ myrel g' t = 0) ->
+  linv0 m' g' t p' /\ frameL t m0 m' /\ word m' = word m0.
+Proof.
+  intros E Hc Hs H1 H2 H3 H4 G1 G2.
+  destruct (creturn0 _ _ _ _ _ _ (fstate m0 t) E Hc) as (A & B & C & D).
+  assert (Fs : fstate m' = fstate m0 /\ slot_sched m' = slot_sched m0 /\ slot_mpmc m' = slot_mpmc m0 /\
+               slot_wait m' = slot_wait m0 /\ word m' = word m0 /\
+               (forall u, u <> t -> slot_mutex m' u = slot_mutex m0 u) /\
+               (forall q, slot_mutex m' t = Some q -> q = UMUTEX)).
+  { destruct C as [->|(p & k & -> & ->)]; cbn; repeat split; auto.
+    - intros u Hu. now rewrite upd_other.
+    - intros q. rewrite upd_same. intros Q. now inversion Q. }
+  destruct Fs as (F1 & F2 & F3 & F4 & F5 & F6 & F7).
+  split; [|split; [|exact F5]].
+  - constructor; auto.
+    + rewrite F1, B. exact Hs.
+    + now rewrite F2.
+    + now rewrite F3.
+    + now rewrite F4.
+    + destruct p' as [| |c' kp']; auto. destruct kp'; auto.
+      destruct (D _ _ _ _ _ eq_refl) as [-> [(um & p & k & -> & -> & Hv)|(um & p & k & -> & ->)]].
+      * destruct (G1 _ _ _ eq_refl Hv) as [-> ->]. auto.
+      * destruct (G2 _ _ _ eq_refl) as [-> ->]. auto.
+  - constructor; intros u Hu; auto.
+    + rewrite F1. auto.
+    + now rewrite F2.
+    + now rewrite F3.
+    + now rewrite F4.
+Qed.
+
+Definition cnt_def (m : kmem) (c : gc) : Z := word m COND - (g_reg c - g_claimed c - g_trans c).
+
+Lemma frameL_trans t m1 m2 m3 : frameL t m1 m2 -> frameL t m2 m3 -> frameL t m1 m3.
+Proof.
+  intros A B. constructor; intros u Hu.
+  - destruct (fl_state _ _ _ B u Hu) as [E|E]; [rewrite E; apply A; auto|auto].
+  - rewrite (fl_sched _ _ _ B u Hu). apply A; auto.
+  - rewrite (fl_mpmc _ _ _ B u Hu). apply A; auto.
+  - rewrite (fl_wait _ _ _ B u Hu). apply A; auto.
+  - rewrite (fl_mutex _ _ _ B u Hu). apply A; auto.
+Qed.
+
+Lemma frameL_fstate t m v : frameL t m (set_fstate m t v).
+Proof. constructor; auto. intros u Hu. cbn. rewrite upd_other by auto. auto. Qed.
+Lemma frameL_word t m q v : frameL t m (set_word m q v).
+Proof. constructor; auto. Qed.
+Lemma frameL_cell t m i v : frameL t m (set_cell m i v).
+Proof. constructor; auto. Qed.
+
+(* the cond-level ghosts do not move in kernel calls other than the wake on the cond list *)
+Definition plain_client (c : cc) : bool :=
+  match c with CW2 _ _ | CS2 _ _ _ | CS3 _ _ _ | CB2 _ _ _ => false | _ => true end.
+
+Lemma gc_nosched m t p c : sched_now m p = None -> (forall c0 kp, p = PRun c0 kp -> plain_client c0 = true) ->
+  gc_step m t p c = c.
+Proof.
+  intros S P. unfold gc_step. rewrite S. destruct p as [| |c0 kp]; auto.
+  specialize (P c0 kp eq_refl). destruct c0; try discriminate P; auto.
+Qed.
+
+Lemma gc_sched_mutex m t p c q f : sched_now m p = Some (q, f) -> q <> COND ->
+  (forall c0 kp, p = PRun c0 kp -> plain_client c0 = true) ->
+  gc_step m t p c = c.
+Proof.
+  intros S Hq P. unfold gc_step. rewrite S. destruct (Nat.eqb_spec q COND); [contradiction|].
+  destruct p as [| |c0 kp]; auto.
+  specialize (P c0 kp eq_refl). destruct c0; try discriminate P; auto.
+Qed.
+
+Lemma sched_now_wait c0 q wp m : wait_ok wp ->
+  forall p, (p = PRun c0 (KLock q (LPWait wp)) \/ p = PRun c0 (KWait q wp)) ->
+  sched_now m p = None \/ exists f, sched_now m p = Some (UMUTEX, f).
+Proof.
+  intros W p [->| ->]; unfold sched_now; cbn;
+    (destruct wp as [| | | | |yp]; auto; destruct yp as [| | | | | |q' ip| |]; auto;
+     destruct ip as [|wc kp]; auto; cbn in W; destruct W as [-> _];
+     destruct (sched_of m kp); eauto).
+Qed.
+
+Lemma gc_wait m t c0 q wp c p : wait_ok wp -> plain_client c0 = true ->
+  (p = PRun c0 (KLock q (LPWait wp)) \/ p = PRun c0 (KWait q wp)) ->
+  gc_step m t p c = c.
+Proof.
+  intros W P Hp. destruct (sched_now_wait c0 q wp m W p Hp) as [S|[f S]].
+  - apply gc_nosched; auto. intros c1 kp1 Q. destruct Hp as [->| ->]; inversion Q; subst; auto.
+  - eapply gc_sched_mutex; eauto; [discriminate|].
+    intros c1 kp1 Q. destruct Hp as [->| ->]; inversion Q; subst; auto.
+Qed.
+
+Definition step0_goal (m : kmem) (c : gc) (t : nat) (p : phase) (m' : kmem) (p' : phase) : Prop :=
+  linv0 m' (gc_step m t p c) t p' /\ frameL t m m' /\ cnt_def m' (gc_step m t p c) = cnt_def m c.
+
+Ltac nocs := let Q := fresh in intros ? ? ? Q; discriminate Q.
+
+Lemma pstep0_start m c t c0 m' p' :
+  linv0 m c t (PRun c0 KStart) -> pstep m t (PRun c0 KStart) = (m', p') ->
+  step0_goal m c t (PRun c0 KStart) m' p'.
+Proof.
+  intros [[Hc Hk] B H1 H2 H3 H4 H5] E. cbn in E.
+  destruct c0; try discriminate Hc.
+  assert (G : gc_step m t (PRun (CNext p k) KStart) c = c) by reflexivity.
+  unfold step0_goal. rewrite G.
+  destruct (ret0 _ _ _ _ _ _ c E ltac:(eauto)) as (L & F & W); cbn; rewrite ?upd_same; auto; try nocs.
+  - left; reflexivity.
+  - split; [exact L|]. split.
+    + eapply frameL_trans; [apply frameL_fstate|exact F].
+    + unfold cnt_def. rewrite W. reflexivity.
+Qed.
+
+Lemma pstep0_acc m c t c0 a m' p' :
+  linv0 m c t (PRun c0 (KAcc a)) -> pstep m t (PRun c0 (KAcc a)) = (m', p') ->
+  step0_goal m c t (PRun c0 (KAcc a)) m' p'.
+Proof.
+  intros [[Hc Hk] B H1 H2 H3 H4 H5] E. cbn in B. unfold pstate in B. cbn in B.
+  unfold step0_goal.
+  destruct c0; destruct a as [i v|i|q d mo|q d mo|q v mo|q mo]; try discriminate Hc; cbn [pstep] in E.
+  - (* CIn *)
+    assert (G : gc_step m t (PRun (CIn o p k) (KAcc (ACWrite i v))) c = c) by reflexivity. rewrite G.
+    destruct (ret0 _ _ _ _ _ _ c E ltac:(eauto)) as (L & F & W); auto; try nocs.
+    split; [exact L|]. split; [eapply frameL_trans; [apply frameL_cell|exact F]|].
+    unfold cnt_def. rewrite W. reflexivity.
+  - (* CFlag *)
+    assert (G : gc_step m t (PRun (CFlag p k) (KAcc (ACRead i))) c = c) by reflexivity. rewrite G.
+    destruct (ret0 _ _ _ _ _ _ c E ltac:(eauto)) as (L & F & W); auto; try nocs.
+    split; [exact L|]. split; [exact F|]. unfold cnt_def. rewrite W. reflexivity.
+  - (* CW1 *)
+    assert (G : gc_step m t (PRun (CW1 p k) (KAcc (ACWrite i v))) c = c) by reflexivity. rewrite G.
+    destruct (ret0 _ _ _ _ _ _ c E ltac:(eauto)) as (L & F & W); auto; try nocs.
+    split; [exact L|]. split; [eapply frameL_trans; [apply frameL_cell|exact F]|].
+    unfold cnt_def. rewrite W. reflexivity.
+  - (* CW2 *)
+    destruct q as [|[|[|?]]]; try discriminate Hc.
+    match goal with |- context [gc_step ?a ?b ?p0 ?d] => set (g' := gc_step a b p0 d) end.
+    destruct (ret0 _ _ _ _ _ _ g' E ltac:(eauto)) as (L & F & W); auto; try nocs.
+    split; [exact L|]. split; [eapply frameL_trans; [apply frameL_word|exact F]|].
+    unfold cnt_def. rewrite W. subst g'. cbn. unfold COND. rewrite ?upd_same.
+    assert (d = 1) by (destruct d as [|[| |]|]; try discriminate Hc; reflexivity). subst d. lia.
+  - (* CS2 *)
+    destruct q as [|[|[|?]]]; try discriminate Hc.
+    match goal with |- context [gc_step ?a ?b ?p0 ?d] => set (g' := gc_step a b p0 d) end.
+    assert (d = 1) by (destruct d as [|[| |]|]; try discriminate Hc; reflexivity). subst d.
+    destruct (ret0 _ _ _ _ _ _ g' E ltac:(eauto)) as (L & F & W); auto; try nocs.
+    { intros um0 p0 k0 _ Hv. subst g'. cbn. unfold COND.
+      destruct (1 <=? word m 2) eqn:Ev; [cbn; rewrite ?upd_same; auto|]. apply Z.leb_gt in Ev. lia. }
+    split; [exact L|]. split; [eapply frameL_trans; [apply frameL_word|exact F]|].
+    unfold cnt_def. rewrite W. subst g'. cbn. unfold COND. rewrite ?upd_same.
+    destruct (1 <=? word m 2); cbn; lia.
+  - (* CB2 *)
+    destruct q as [|[|[|?]]]; try discriminate Hc.
+    match goal with |- context [gc_step ?a ?b ?p0 ?d] => set (g' := gc_step a b p0 d) end.
+    assert (v = 0) by (destruct v; try discriminate Hc; reflexivity). subst v.
+    destruct (ret0 _ _ _ _ _ _ g' E ltac:(eauto)) as (L & F & W); auto; try nocs.
+    { intros um0 p0 k0 _. subst g'. cbn. rewrite ?upd_same. auto. }
+    split; [exact L|]. split; [eapply frameL_trans; [apply frameL_word|exact F]|].
+    unfold cnt_def. rewrite W. subst g'. cbn. unfold COND. rewrite ?upd_same. lia.
+  - (* CS3 *)
+    destruct q as [|[|[|?]]]; try discriminate Hc.
+    match goal with |- context [gc_step ?a ?b ?p0 ?d] => set (g' := gc_step a b p0 d) end.
+    assert (d = 1) by (destruct d as [|[| |]|]; try discriminate Hc; reflexivity). subst d.
+    destruct (ret0 _ _ _ _ _ _ g' E ltac:(eauto)) as (L & F & W); auto; try nocs.
+    split; [exact L|]. split; [eapply frameL_trans; [apply frameL_word|exact F]|].
+    unfold cnt_def. rewrite W. subst g'. cbn. unfold COND. rewrite ?upd_same. lia.
+  - (* CUnl *)
+    assert (G : gc_step m t (PRun (CUnl p k r0) (KAcc (ACWrite i v))) c = c) by reflexivity. rewrite G.
+    destruct (ret0 _ _ _ _ _ _ c E ltac:(eauto)) as (L & F & W); auto; try nocs.
+    split; [exact L|]. split; [eapply frameL_trans; [apply frameL_cell|exact F]|].
+    unfold cnt_def. rewrite W. reflexivity.
+  - (* CRb *)
+    assert (G : gc_step m t (PRun (CRb p k r0) (KAcc (ACRead i))) c = c) by reflexivity. rewrite G.
+    destruct (ret0 _ _ _ _ _ _ c E ltac:(eauto)) as (L & F & W); auto; try nocs.
+    split; [exact L|]. split; [exact F|]. unfold cnt_def. rewrite W. reflexivity.
+  - (* CRd *)
+    assert (G : gc_step m t (PRun (CRd p k) (KAcc (AWLoad q mo))) c = c) by reflexivity. rewrite G.
+    destruct (ret0 _ _ _ _ _ _ c E ltac:(eauto)) as (L & F & W); auto; try nocs.
+    split; [exact L|]. split; [exact F|]. unfold cnt_def. rewrite W. reflexivity.
+Qed.
+
+Lemma lock_client c0 q lp : cphase_okb c0 (KLock q lp) = true ->
+  plain_client c0 = true /\ q <> COND /\ forall lp', cphase_okb c0 (KLock q lp') = true.
+Proof.
+  destruct c0; cbn; try discriminate; destruct q as [|[|?]]; try discriminate; intros H;
+    repeat split; auto; discriminate.
+Qed.
+
+Lemma pstep0_lock m c t c0 q lp m' p' :
+  linv0 m c t (PRun c0 (KLock q lp)) -> pstep m t (PRun c0 (KLock q lp)) = (m', p') ->
+  step0_goal m c t (PRun c0 (KLock q lp)) m' p'.
+Proof.
+  intros [[Hc Hk] B H1 H2 H3 H4 H5] E.
+  destruct (lock_client _ _ _ Hc) as (P & Hq & Hc').
+  unfold step0_goal. destruct lp as [|wp].
+  - assert (G : gc_step m t (PRun c0 (KLock q LPSub)) c = c).
+    { apply gc_nosched; [reflexivity|]. intros c1 kp1 Q. inversion Q; subst; auto. }
+    rewrite G. cbn [pstep] in E. cbn in B. unfold pstate in B. cbn in B.
+    assert (W0 : word (set_word m q (word m q - 1)) COND = word m COND).
+    { cbn. now rewrite upd_other by auto. }
+    destruct (word m q - 1 =? 0).
+    + destruct (ret0 _ _ _ _ _ _ c E ltac:(eauto)) as (L & F & W); auto.
+      { intros um p k ->. discriminate P. } { intros um p k ->. discriminate P. }
+      split; [exact L|]. split; [eapply frameL_trans; [apply frameL_word|exact F]|].
+      unfold cnt_def. rewrite W, W0. reflexivity.
+    + inversion E; subst. split; [|split; [apply frameL_word|unfold cnt_def; now rewrite W0]].
+      constructor; auto. split; auto. exact I.
+  - assert (G : gc_step m t (PRun c0 (KLock q (LPWait wp))) c = c) by (eapply gc_wait; eauto).
+    rewrite G. cbn [pstep] in E. cbn in Hk. unfold pstate in B. cbn in B.
+    destruct (wait_step m t q wp) as [m1 r] eqn:Ws.
+    destruct (wait_step0 _ _ _ _ _ _ Ws H1 H2 H3 H4 Hk B) as (F & S & R).
+    destruct r as [wp'| |]; [| |destruct R].
+    + inversion E; subst. split; [|split; [apply frameT_L; exact F|unfold cnt_def; now rewrite (fr_word _ _ _ F)]].
+      destruct R as (R1 & R2 & R3). constructor; auto.
+      * split; auto.
+      * now rewrite (fr_sched _ _ _ F).
+      * now rewrite (fr_mpmc _ _ _ F).
+      * now rewrite (fr_wait _ _ _ F).
+    + destruct (ret0 _ _ _ _ _ _ c E ltac:(eauto)) as (L & F2 & W); auto.
+      { now rewrite (fr_sched _ _ _ F). } { now rewrite (fr_mpmc _ _ _ F). } { now rewrite (fr_wait _ _ _ F). }
+      { intros um p k ->. discriminate P. } { intros um p k ->. discriminate P. }
+      split; [exact L|]. split; [eapply frameL_trans; [apply frameT_L; exact F|exact F2]|].
+      unfold cnt_def. rewrite W, (fr_word _ _ _ F). reflexivity.
+Qed.
+
+Lemma pstep0_wait m c t c0 q wp m' p' :
+  linv0 m c t (PRun c0 (KWait q wp)) -> pstep m t (PRun c0 (KWait q wp)) = (m', p') ->
+  step0_goal m c t (PRun c0 (KWait q wp)) m' p'.
+Proof.
+  intros [[Hc Hk] B H1 H2 H3 H4 H5] E.
+  assert (P : plain_client c0 = true) by (destruct c0; try discriminate Hc; reflexivity).
+  unfold step0_goal.
+  assert (G : gc_step m t (PRun c0 (KWait q wp)) c = c) by (eapply gc_wait; eauto).
+  rewrite G. cbn [pstep] in E. cbn in Hk. unfold pstate in B. cbn in B.
+  destruct (wait_step m t q wp) as [m1 r] eqn:Ws.
+  destruct (wait_step0 _ _ _ _ _ _ Ws H1 H2 H3 H4 Hk B) as (F & S & R).
+  destruct r as [wp'| |]; [| |destruct R].
+  - inversion E; subst. split; [|split; [apply frameT_L; exact F|unfold cnt_def; now rewrite (fr_word _ _ _ F)]].
+    destruct R as (R1 & R2 & R3). constructor; auto.
+    + split; auto. destruct c0; try discriminate Hc. exact Hc.
+    + now rewrite (fr_sched _ _ _ F).
+    + now rewrite (fr_mpmc _ _ _ F).
+    + now rewrite (fr_wait _ _ _ F).
+  - destruct (ret0 _ _ _ _ _ _ c E ltac:(eauto)) as (L & F2 & W); auto.
+    { now rewrite (fr_sched _ _ _ F). } { now rewrite (fr_mpmc _ _ _ F). } { now rewrite (fr_wait _ _ _ F). }
+    { intros um p k ->. discriminate P. } { intros um p k ->. discriminate P. }
+    split; [exact L|]. split; [eapply frameL_trans; [apply frameT_L; exact F|exact F2]|].
+    unfold cnt_def. rewrite W, (fr_word _ _ _ F). reflexivity.
+Qed.
